@@ -2,7 +2,7 @@
 from contracts.mover import lemma_mover, SITES
 from contracts.common import add_common
 
-VERIFY = []
+VERIFY = ["trees.transform.add_topnode"]
 TRUSTED = ["mover steps are located by AST pattern (remove / append / parent-assign about the same node, three "
            "consecutive statements); expressions such as split[-1] are abstracted to an arbitrary node"]
 ASSUMPTIONS = ["block precondition: links consistent before the step, the moved node has a parent, the list it is removed "
@@ -13,6 +13,50 @@ ASSUMPTIONS = ["block precondition: links consistent before the step, the moved 
 
 def build(reg):
     add_common(reg)
+    import z3
+    from pyvc.core import Contract
+    from pyvc.sym import VRef, VBool, REF, conj, tobool, fresh_name
+    from contracts.common import WF
+    from contracts.mover import links_consistent
+
+    def requires(S, tree, params):
+        H = S.H
+        x = z3.Int(fresh_name("ax"))
+        return conj(tree != None, VBool(H.parent_t(tree.t) == 0), VBool(H.has(tree, "sid").t),
+                    VBool(z3.Select(H.f["alive"], tree.t)),
+                    # every node that is linked to anything is allocated (so a fresh node is new to the tree)
+                    VBool(z3.ForAll([x], z3.Implies(z3.Or(H.parent_t(x) != 0, H.nchild_t(x) > 0),
+                                                    z3.Select(H.f["alive"], x)))),
+                    VBool(links_consistent(H, "a")))
+
+    def post(S, tree, params, result):
+        """a new node labelled TOP above the old root: the old root is its only child; nothing else changes"""
+        H0, H1 = S.old, S.H
+        x, k = z3.Int(fresh_name("px")), z3.Int(fresh_name("pk"))
+        top = result.t
+        lab = H1.data(result, "label")
+        return VBool(z3.And(
+            top != 0, top != tree.t, z3.Not(z3.Select(H0.f["alive"], top)),
+            H1.parent_t(top) == 0, H1.nchild_t(top) == 1, H1.child_t(top, 0) == tree.t, H1.parent_t(tree.t) == top,
+            z3.Not(lab.isnone), lab.val.t == z3.StringVal("TOP"),
+            H1.data(result, "sid").t == H0.data(tree, "sid").t,
+            z3.ForAll([x], z3.Implies(z3.And(x != top, x != tree.t), H1.parent_t(x) == H0.parent_t(x))),
+            z3.ForAll([x], z3.Implies(x != top, z3.And(H1.nchild_t(x) == H0.nchild_t(x),
+                                                       z3.Select(H1.f["child"], x) == z3.Select(H0.f["child"], x),
+                                                       z3.Select(H1.f["val_label"], x) == z3.Select(H0.f["val_label"], x),
+                                                       z3.Select(H1.f["val_word"], x) == z3.Select(H0.f["val_word"], x),
+                                                       z3.Select(H1.f["val_num"], x) == z3.Select(H0.f["val_num"], x))))))
+
+    reg.add(Contract(
+        target="trees.transform.add_topnode", prop="C04", args=dict(tree=REF), params={},
+        requires=requires,
+        modifies=["alive", "parent", "nchild", "child"] + [f for f in Heap_fields() if f.startswith(("has_", "val_", "none_"))],
+        ensures={"one_new_TOP_node_above_the_root": post}, result_type=REF))
+
+
+def Heap_fields():
+    from pyvc.heap import Heap
+    return sorted(Heap.fresh("tmp").f)
 
 
 LEMMAS = {"mover." + q.split(".")[-1]: lemma_mover(q) for q in SITES}
